@@ -181,7 +181,72 @@ impl Engine for InterpSim {
     fn generate(&self, rng: &mut Rng) -> InterpCase {
         let mut spec = *rng.pick(SPECS);
         let use_eof = !self.eof_corpus.is_empty() && rng.chance(1, 3);
-        let (code, is_eof) = if use_eof {
+        let (code, is_eof) = if use_eof && rng.chance(1, 8) {
+            // RJUMPV tables whose entries point back into a NOP sled at distances that make the
+            // entry bytes themselves opcodes (RETF, CALLF, JUMPF, DUPN, EOFCREATE, RJUMP...), and
+            // sometimes into the table itself. A table entry is never a legal jump target, so
+            // validation must reject the second kind; if it lets one through, the table bytes
+            // are executed as code.
+            spec = SpecId::OSAKA;
+            let sled = 48usize;
+            let m = rng.below(4) as usize; // max_index
+            let sel = rng.below(m as u64 + 2) as u8;
+            let mut c: Vec<u8> = vec![0x5b; sled];
+            c.extend_from_slice(&[0x60, sel, 0xe2, m as u8]);
+            let table_start = c.len();
+            let end = table_start + 2 * (m + 1);
+            for _ in 0..=m {
+                let off: i16 = match rng.below(4) {
+                    // into the instruction itself (max_index byte or any table byte)
+                    0 => -(rng.range(1, 2 * (m as u64 + 1) + 1) as i16),
+                    // forward: the code right after the table
+                    1 => 0,
+                    // back into the sled, at a distance whose low byte is an opcode
+                    _ => {
+                        let opc = *rng.pick(&[0xe4u8, 0xe3, 0xe5, 0xe6, 0xe7, 0xe8, 0xec, 0xee, 0xe0, 0xe1, 0xe2, 0xd1, 0xf3, 0xfd]);
+                        let dist = 256 - opc as i16;
+                        if (dist as usize) <= end { -dist } else { -(end as i16) }
+                    }
+                };
+                c.extend_from_slice(&off.to_be_bytes());
+            }
+            let as_init = rng.bool();
+            if as_init {
+                c.extend_from_slice(&[0x5f, 0x5f, 0xee, 0x00]);
+            } else {
+                c.push(0x00);
+            }
+            let subs = if as_init { vec![eof_container(&[0x00], 0)] } else { vec![] };
+            (eof_container_with(&c, if as_init { 2 } else { 1 }, &subs), true)
+        } else if use_eof && rng.chance(1, 3) {
+            // generated EOF programs (RJUMPI guards, RJUMPV tables, calls, EOFCREATE) whose
+            // relative-jump offsets are then nudged: the targets move into immediates, table
+            // bytes or the middle of other instructions. Validation must reject those; whatever
+            // it accepts is executed
+            spec = SpecId::OSAKA;
+            let mut ctx = GenCtx::new(spec);
+            ctx.callees = (1..6u8).map(Address::with_last_byte).collect();
+            ctx.addr_pool = (0..12u8).map(|i| Address::with_last_byte(i * 7)).collect();
+            ctx.guard_pct = *rng.pick(&[30u64, 90]);
+            let n = rng.range(2, 8) as usize;
+            let mut c = gen_eof_program(rng, &ctx, n).to_vec();
+            if rng.chance(3, 4) {
+                let sites: Vec<usize> = (0..c.len().saturating_sub(3)).filter(|i| matches!(c[*i], 0xe0 | 0xe1 | 0xe2)).collect();
+                for _ in 0..rng.range(1, 2) {
+                    if sites.is_empty() {
+                        break;
+                    }
+                    let at = *rng.pick(&sites);
+                    // RJUMP/RJUMPI: low byte of the offset; RJUMPV: low byte of a table entry
+                    let idx = if c[at] == 0xe2 { at + 3 + 2 * rng.below(c[at + 1] as u64 + 1) as usize } else { at + 2 };
+                    if idx < c.len() {
+                        let d = rng.range(1, 6) as u8;
+                        c[idx] = if rng.bool() { c[idx].wrapping_add(d) } else { c[idx].wrapping_sub(d) };
+                    }
+                }
+            }
+            (Bytes::from(c), true)
+        } else if use_eof {
             spec = SpecId::OSAKA;
             let mut c = rng.pick(&self.eof_corpus).to_vec();
             // mutated containers: only those that still validate are executed
